@@ -16,6 +16,14 @@ Only rewrites whose result is the same program are made, each under a stated con
   the truth of the element); ``map``/``filter`` must not be re-bound in the module.  Both
   sides are lazy iterators applying the function to each element in order.
 
+* ``for v in (E for x in S if C): body``  ->  ``for x in S: if C: v = E; body``: a generator
+  expression is consumed lazily, element by element, which is what the fused loop does
+  (only when ``x`` is used nowhere else in the function).
+
+* ``it = iter(E)`` directly followed by ``while True: v = next(it, S); if v is S: break;
+  body`` (``it`` used nowhere else, ``S`` a name)  ->  ``for v in E: body``: the iterator
+  protocol written out.
+
 Assignment expressions elsewhere (second operand of ``and``/``or``, comprehensions,
 ``while`` tests, ``assert``) stay as they are and are interpreted by the path engine.
 """
@@ -330,6 +338,104 @@ class _MapToGenerator(ast.NodeTransformer):
         return new
 
 
+def _fuse_generator_loops(tree) -> int:
+    count = 0
+    for scope in ast.walk(tree):
+        if not isinstance(scope, (ast.FunctionDef, ast.AsyncFunctionDef)):
+            continue
+        for loop in [n for n in ast.walk(scope) if isinstance(n, ast.For)]:
+            gen = loop.iter
+            if not (isinstance(gen, ast.GeneratorExp) and len(gen.generators) == 1):
+                continue
+            comp = gen.generators[0]
+            if comp.is_async or not isinstance(comp.target, ast.Name):
+                continue
+            var = comp.target.id
+            inside = {id(n) for n in ast.walk(gen)}
+            if any(isinstance(n, ast.Name) and n.id == var and id(n) not in inside
+                   for n in ast.walk(scope)) or any(
+                    isinstance(n, ast.arg) and n.arg == var for n in ast.walk(scope)):
+                continue
+            if any(isinstance(n, (ast.Yield, ast.YieldFrom, ast.Await, ast.NamedExpr))
+                   for n in ast.walk(gen)):
+                continue
+            body = list(loop.body)
+            if not (isinstance(loop.target, ast.Name) and isinstance(gen.elt, ast.Name)
+                    and loop.target.id == gen.elt.id):
+                bind = ast.Assign(targets=[loop.target], value=gen.elt, type_comment=None)
+                ast.copy_location(bind, loop)
+                body.insert(0, bind)
+            for cond in reversed(comp.ifs):
+                guard = ast.If(test=cond, body=body, orelse=[])
+                ast.copy_location(guard, loop)
+                body = [guard]
+            loop.target = ast.copy_location(ast.Name(id=var, ctx=ast.Store()), comp.target)
+            loop.iter = comp.iter
+            loop.body = body
+            count += 1
+    return count
+
+
+def _fuse_iterator_loops(tree) -> int:
+    count = 0
+    for scope in ast.walk(tree):
+        if not isinstance(scope, (ast.FunctionDef, ast.AsyncFunctionDef)):
+            continue
+        uses = {}
+        for node in ast.walk(scope):
+            if isinstance(node, ast.Name):
+                uses[node.id] = uses.get(node.id, 0) + 1
+        for owner in ast.walk(scope):
+            for field in ('body', 'orelse', 'finalbody'):
+                block = getattr(owner, field, None)
+                if not isinstance(block, list):
+                    continue
+                index = 0
+                while index + 1 < len(block):
+                    first, loop = block[index], block[index + 1]
+                    fused = _iterator_loop(first, loop, uses)
+                    if fused is not None:
+                        block[index:index + 2] = [fused]
+                        count += 1
+                    index += 1
+    return count
+
+
+def _iterator_loop(first, loop, uses):
+    if not (isinstance(first, ast.Assign) and len(first.targets) == 1
+            and isinstance(first.targets[0], ast.Name)
+            and isinstance(first.value, ast.Call) and isinstance(first.value.func, ast.Name)
+            and first.value.func.id == 'iter' and len(first.value.args) == 1
+            and not first.value.keywords):
+        return None
+    name = first.targets[0].id
+    if not (isinstance(loop, ast.While) and not loop.orelse
+            and isinstance(loop.test, ast.Constant) and loop.test.value is True
+            and len(loop.body) >= 2 and uses.get(name) == 2):
+        return None
+    take, leave = loop.body[0], loop.body[1]
+    if not (isinstance(take, ast.Assign) and len(take.targets) == 1
+            and isinstance(take.targets[0], ast.Name)
+            and isinstance(take.value, ast.Call) and isinstance(take.value.func, ast.Name)
+            and take.value.func.id == 'next' and len(take.value.args) == 2
+            and not take.value.keywords and isinstance(take.value.args[0], ast.Name)
+            and take.value.args[0].id == name and isinstance(take.value.args[1], ast.Name)):
+        return None
+    item, sentinel = take.targets[0].id, take.value.args[1].id
+    if not (isinstance(leave, ast.If) and not leave.orelse and len(leave.body) == 1
+            and isinstance(leave.body[0], ast.Break) and isinstance(leave.test, ast.Compare)
+            and len(leave.test.ops) == 1 and isinstance(leave.test.ops[0], ast.Is)
+            and isinstance(leave.test.left, ast.Name) and leave.test.left.id == item
+            and isinstance(leave.test.comparators[0], ast.Name)
+            and leave.test.comparators[0].id == sentinel):
+        return None
+    fused = ast.For(target=ast.copy_location(ast.Name(id=item, ctx=ast.Store()), take),
+                    iter=first.value.args[0],
+                    body=loop.body[2:] or [ast.copy_location(ast.Pass(), loop)],
+                    orelse=[], type_comment=None)
+    return ast.copy_location(fused, loop)
+
+
 def desugar(tree):
     """normalise ``tree`` in place; returns the number of rewrites"""
     count = 0
@@ -337,6 +443,8 @@ def desugar(tree):
     mapper = _MapToGenerator(functions, modules, shadowed, filterfalse)
     mapper.visit(tree)
     count += mapper.count
+    count += _fuse_generator_loops(tree)
+    count += _fuse_iterator_loops(tree)
     for node in list(ast.walk(tree)):
         if isinstance(node, ast.ClassDef):
             continue
